@@ -192,7 +192,9 @@ impl<R: DynamicChannelRegion> RegionHandler for DynamicChannelPlan<R> {
     }
 
     fn get_datarate(&self, dr: u8) -> Option<&Datarate> {
-        R::datarates()[dr as usize].as_ref()
+        // `dr` may come straight from a received frame (e.g. the 4-bit RX2 data rate of a
+        // JoinAccept): values past the table (DR15 is RFU) are undefined, not out of bounds
+        R::datarates().get(dr as usize).and_then(|d| d.as_ref())
     }
 
     fn select_tx_channel<RNG: RngCore>(
